@@ -439,7 +439,7 @@ def sctp_cases():
 def plan(tier):
     # two application threads blocked in get_message() when the connection ends
     for role, cause in (("server", "eof"), ("client", "close"), ("server", "dpr"), ("client", "rst")):
-        yield dict(role=role, life="open-consumer", cause=cause, consumers=2), (1 if (role, cause) == ("server", "eof") or tier == "thorough" else 0)
+        yield dict(role=role, life="open-consumer", cause=cause, consumers=2), (1 if tier == "thorough" else 0)
     # an application thread already waiting in get_message() when the connection attempt is refused
     yield dict(role="client", life="connecting", cause="refuse", early_consumer=True), (1 if tier == "thorough" else 0)
     yield dict(role="client", life="connecting", cause="refuse", early_consumer=True, transport="sctp"), 0
@@ -452,7 +452,7 @@ def plan(tier):
             ("client", "open-outbound", "close"), ("client", "await-cea", "eof"), ("server", "closing", "eof"),
             ("client", "open-sender", "close"), ("server", "open-sender", "eof"), ("server", "open-outbound", "rst"),
             ("client", "await-cea", "close-early"), ("server", "accepted", "eof"), ("client", "starting", "close"), ("client", "starting", "close-during-start"),
-            ("client", "await-cea", "close-racing-cea"), ("server", "open-consumer", "eof-partial")}
+            ("client", "await-cea", "close-racing-cea")}
     for p in all_cases():
         key = (p["role"], p["life"], p["cause"])
         if tier == "quick":
